@@ -75,6 +75,44 @@ class Di(V):
         self.d = dict(d)
 
 
+class El(V):
+    """A numpy 1-d array in ELEMENTWISE form: [t] is the Coq term of one element, written in the
+    element variable x_; [dt] the Coq term of its dtype; [mask] (a sumbool/bool term in x_) is set
+    when the value is a boolean-mask selection a[m] of such an array.  The rule
+    "dest[m] = f(a[m])  ==  elementwise conditional store" that this representation relies on is
+    the theorem masked_partition of coq/Lib/NumpyDtype.v."""
+
+    def __init__(self, t, dt, mask=None):
+        self.t, self.dt, self.mask = t, dt, mask
+
+
+class Em(V):
+    """Elementwise boolean mask (Coq sumbool term in x_)."""
+
+    def __init__(self, t):
+        self.t = t
+
+
+class Dt(V):
+    """A numpy dtype (Coq term of type dtype)."""
+
+    def __init__(self, t):
+        self.t = t
+
+
+def fdt(dt):
+    """dtype of float arithmetic on an array of dtype dt (numpy result_type with a float)."""
+    return dt if dt.startswith("(result_type ") or dt in ("F32", "F64") else f"(result_type {dt} F32)"
+
+
+def same_mask(a, b, node):
+    if a is None:
+        return b
+    if b is None or a == b:
+        return a
+    fail(node, "operands selected by different boolean masks")
+
+
 class Rows(Di):
     """A structured array with ONE record (fields are scalars): subscripting by field name gives the
     scalar, iterating gives the single row."""
@@ -190,10 +228,14 @@ class Module:
             "From Coq Require Import Reals List.",
             "From BBLib Require Import PyPrelude.",
         ]
+        if getattr(self, "uses_numpy", False):
+            hdr.append("From BBLib Require Import NumpyDtype.")
         for m in self.imports:
             hdr.append(f"From BBRun Require {m.coq_name}.")
         hdr += ["Import ListNotations.", "Open Scope R_scope.", ""]
         body = []
+        if getattr(self, "uses_numpy", False):
+            pass
         if self.oracles:
             body.append("Section Oracles.")
             for nm, ty in self.oracles:
@@ -275,6 +317,9 @@ class Tr:
             elif k == "list":
                 env[nm] = DL(mangle(nm))
                 params.append((mangle(nm), "list R"))
+            elif k == "arr":
+                env[nm] = El("x_", "dt")
+                self.arr_param = mangle(nm)
             elif k == "fun":
                 t = mangle(nm)
                 env[nm] = self.mk_fun_value(t)
@@ -307,9 +352,19 @@ class Tr:
         body = self.block(f.body, env, tail=None)
         ptxt = " ".join(f"({n} : {t})" for n, t in params)
         ann = f" : {self.ret_annot}" if self.ret_annot else ""
-        text = f"Definition {self.emit_name} {ptxt}{ann} :=\n{body}.\n"
+        if getattr(self, "arr_param", None):
+            if getattr(self, "ret_kind", None) != "el":
+                fail(f, "array-mode function must return an elementwise array")
+            pn = " ".join(n for n, _ in params)
+            text = (f"Definition {self.emit_name}_elem (dt : dtype) {ptxt} (x_ : R) : R :=\n{body}.\n\n"
+                    f"Definition {self.emit_name}_dtype (dt : dtype) : dtype := {self.ret_dt}.\n\n"
+                    f"Definition {self.emit_name}_array (dt : dtype) {ptxt} ({self.arr_param} : list R) : dtype * list R :=\n"
+                    f"({self.emit_name}_dtype dt, map ({self.emit_name}_elem dt {pn}) {self.arr_param}).\n")
+            self.mod.uses_numpy = True
+        else:
+            text = f"Definition {self.emit_name} {ptxt}{ann} :=\n{body}.\n"
         self.mod.out.append(text)
-        self.mod.defined[self.emit_name] = dict(
+        self.mod.defined[self.emit_name + ("_array" if getattr(self, "arr_param", None) else "")] = dict(
             params=[n for n in names if n not in self.fixed and n != "self"],
             preset={k: v[1] for k, v in self.preset.items()},
             pkinds=self.kinds,
@@ -321,6 +376,9 @@ class Tr:
             ret=getattr(self, "ret_kind", "R"),
             option=self.option,
         )
+        if getattr(self, "arr_param", None):
+            # registered under the python name + "__arr" so that array calls find the array branch
+            self.mod.defined[self.fnode.name + "__arr"] = dict(arr_param=[n for n in names if self.kinds.get(n) == "arr"][0])
         return text
 
     def mk_fun_value(self, t):
@@ -413,6 +471,13 @@ class Tr:
         return env[name]
 
     def retval(self, v, node):
+        if isinstance(v, El):
+            if v.mask is not None:
+                fail(node, "returning a masked selection")
+            if getattr(self, "ret_kind", "el") != "el" or getattr(self, "ret_dt", v.dt) != v.dt:
+                fail(node, "return statements of different kinds")
+            self.ret_kind, self.ret_dt = "el", v.dt
+            return v.t
         kind = "R" if isinstance(v, Sc) else "list" if isinstance(v, DL) else len(v.items) if isinstance(v, Tu) else "other"
         if getattr(self, "ret_kind", kind) != kind:
             fail(node, "return statements of different kinds")
@@ -465,6 +530,19 @@ class Tr:
                 fail(node, "subscript store on non-name")
             cur = self.lookup(base.id, env, node)
             idx = as_int_const(target.slice)
+            if isinstance(cur, El):
+                m = self.ev(target.slice, env)
+                if not isinstance(m, Em) or cur.mask is not None:
+                    fail(node, "array store must be a boolean-mask store")
+                if isinstance(val, El):
+                    if val.mask != m.t:
+                        fail(node, "masked store of a value selected by a different mask")
+                    vt = val.t
+                elif isinstance(val, Sc):
+                    vt = val.t
+                else:
+                    fail(node, "masked store of unsupported kind")
+                return self.bind(base.id, El(f"(if {m.t} then (cast {cur.dt} {vt}) else {cur.t})", cur.dt), env, node)
             if isinstance(cur, SV):
                 if idx is None:
                     fail(node, "non-constant index store")
@@ -524,7 +602,10 @@ class Tr:
                     items.append(it)
             env[nm] = SV(items)
             return pre
-        if isinstance(val, (St, Non, Di, Tu, Fn, Bo)):
+        if isinstance(val, El):
+            env[nm] = El(cn, val.dt, val.mask)
+            return f"let {cn} := {val.t} in\n"
+        if isinstance(val, (St, Non, Di, Tu, Fn, Bo, Em, Dt)):
             env[nm] = val
             return ""
         fail(node, f"bind of kind {type(val).__name__}")
@@ -546,6 +627,8 @@ class Tr:
                 return Sc("(" + nm + " " + " ".join(c.t for c in cargs) + ")")
             if arity == 1 and isinstance(cargs[0], DL):
                 return DL(f"(map {nm} {cargs[0].t})")
+            if arity == 1 and isinstance(cargs[0], El):
+                return El(f"({nm} {cargs[0].t})", fdt(cargs[0].dt), cargs[0].mask)
             fail(node, "closure applied to unsupported kinds")
         env[s.name] = Fn(call, term=nm)
         return f"let {nm} := {t} in\n"
@@ -715,6 +798,8 @@ class Tr:
 
     def ev_Attribute(self, node, env):
         d = self.dotted(node)
+        if d in ("np.float32", "np.float64"):
+            return Dt("F32" if d.endswith("32") else "F64")
         if d in BUILTINS:
             return Fn(BUILTINS[d])
         base = self.ev(node.value, env) if not (isinstance(node.value, ast.Name) and node.value.id in ("np", "math", "sp", "sparse", "integrate", "interpolate")) else None
@@ -745,6 +830,8 @@ class Tr:
     def map1(self, f, v, node, dl=None):
         if isinstance(v, Sc):
             return Sc(f(v.t))
+        if isinstance(v, El):
+            return El(f(v.t), fdt(v.dt), v.mask)
         if isinstance(v, SV):
             return SV([self.map1(f, i, node, dl) for i in v.items])
         if isinstance(v, DL):
@@ -770,6 +857,8 @@ class Tr:
                 return self.map1(lambda t: f"(/ ({t} ^ {-n}))", l, node)
             if isinstance(r, Sc):
                 return self.map1(lambda t: f"(pypow {t} {r.t})", l, node)
+            if isinstance(r, El) and isinstance(l, Sc):
+                return El(f"(pypow {l.t} {r.t})", fdt(r.dt), r.mask)
             if isinstance(l, Sc) and isinstance(r, (SV, DL)):
                 return self.map1(lambda t: f"(pypow {l.t} {t})", r, node)
             fail(node, "power with non-scalar exponent")
@@ -778,12 +867,25 @@ class Tr:
                 parts = [self.binop(ast.Mult(), a, b, node, None) for a, b in zip(l.items, r.items)]
                 if all(isinstance(p, Sc) for p in parts):
                     return Sc("(" + " + ".join(p.t for p in parts) + ")")
+                if all(isinstance(p, (Sc, El)) for p in parts):
+                    els = [p for p in parts if isinstance(p, El)]
+                    mk = None
+                    for e_ in els:
+                        mk = same_mask(mk, e_.mask, node)
+                    return El("(" + " + ".join(p.t for p in parts) + ")", fdt(els[0].dt), mk)
             fail(node, "matmul")
         if type(op) not in self.OPS:
             fail(node, f"binary operator {type(op).__name__}")
         sym, vv, sv, vs = self.OPS[type(op)]
         if isinstance(l, Sc) and isinstance(r, Sc):
             return Sc(f"({l.t} {sym} {r.t})")
+        if isinstance(l, El) and isinstance(r, (El, Sc)) or isinstance(r, El) and isinstance(l, Sc):
+            lm = l.mask if isinstance(l, El) else None
+            rm = r.mask if isinstance(r, El) else None
+            if isinstance(l, El) and isinstance(r, El) and (lm is None) != (rm is None):
+                fail(node, "array combined with a masked selection of different shape")
+            dt_ = fdt(l.dt if isinstance(l, El) else r.dt)
+            return El(f"({l.t} {sym} {r.t})", dt_, same_mask(lm, rm, node))
         if isinstance(l, SV) and isinstance(r, SV):
             if len(l.items) != len(r.items):
                 fail(node, "static vector length mismatch")
@@ -819,6 +921,12 @@ class Tr:
                 res = isinstance(l, Non)
                 return Bo(res if isinstance(op, ast.Is) else not res)
             fail(node, "is-comparison")
+        if isinstance(l, El) and isinstance(r, Sc) and l.mask is None:
+            a, b = l.t, r.t
+            tbl = {ast.GtE: f"(Rle_dec {b} {a})", ast.LtE: f"(Rle_dec {a} {b})", ast.Gt: f"(Rlt_dec {b} {a})", ast.Lt: f"(Rlt_dec {a} {b})"}
+            if type(op) in tbl:
+                return Em(tbl[type(op)])
+            fail(node, "array comparison operator")
         if isinstance(l, SV) and isinstance(r, Sc):
             out = []
             for it in l.items:
@@ -915,6 +1023,13 @@ class Tr:
         if not isinstance(g.target, ast.Name):
             fail(node, "comprehension target")
         nm = g.target.id
+        if isinstance(it, El):
+            e2 = dict(env)
+            e2[nm] = it
+            body = self.ev(node.elt, e2)
+            if isinstance(body, (SV, El)):
+                return body  # one row (static vector) per element / one value per element
+            fail(node, "comprehension over an array must give a row or a value per element")
         if isinstance(it, Rows):
             it = SV([Tu(list(it.d.values()))])
         if isinstance(it, SV):
@@ -937,6 +1052,11 @@ class Tr:
     def ev_Subscript(self, node, env):
         base = self.ev(node.value, env)
         sl = node.slice
+        if isinstance(base, El):
+            m = self.ev(sl, env)
+            if isinstance(m, Em) and base.mask is None:
+                return El(base.t, base.dt, m.t)
+            fail(node, "array subscript must be a boolean mask")
         if isinstance(base, Di):
             if isinstance(sl, ast.Constant) and isinstance(sl.value, str):
                 if sl.value not in base.d:
@@ -1051,6 +1171,31 @@ class Tr:
                     fail(node, f"variant {name} needs {p}={c!r}")
         terms = []
         mapped = None
+        el_args = [p for p in names if isinstance(bound[p], El)]
+        if el_args:
+            if len(el_args) != 1:
+                fail(node, "call with more than one array argument")
+            ea = bound[el_args[0]]
+            arr_name = name + "_elem"
+            arr_info = m.defined.get(name + "__arr")
+            ts = []
+            for p in names:
+                v = bound[p]
+                if p == el_args[0]:
+                    continue
+                if not isinstance(v, Sc):
+                    fail(node, f"argument {p} of {name} in an array call")
+                ts.append(v.t)
+            for o in info["oracles"]:
+                self.use_oracle(o)
+            q = name if m is self.mod else f"{m.coq_name}.{name}"
+            if arr_info and arr_info["arr_param"] == el_args[0]:
+                # the callee has its own array branch: use its translated elementwise form
+                return El("(" + " ".join([f"{q}_elem", ea.dt.strip()] + ts + [ea.t]) + ")", f"({q}_dtype {ea.dt})", ea.mask)
+            # scalar correlation applied by numpy broadcasting (elementwise arithmetic on one argument)
+            ts2 = [bound[p].t for p in names]
+            orc2 = " ".join(o for o, _ in m.oracles if o in info["oracles"]) if m is not self.mod else ""
+            return El("(" + " ".join([q] + ([orc2] if orc2 else []) + ts2) + ")", fdt(ea.dt), ea.mask)
         for p in names:
             v = bound[p]
             k = info["pkinds"].get(p, "R")
@@ -1213,7 +1358,7 @@ def _ndim(tr, node, args, kwargs):
     if len(args) != 1:
         fail(node, "np.ndim arity")
     v = args[0]
-    s = Sc("0") if isinstance(v, Sc) else Sc("1") if isinstance(v, (DL, SV)) else None
+    s = Sc("0") if isinstance(v, Sc) else Sc("1") if isinstance(v, (DL, SV, El)) else None
     if s is None:
         fail(node, "np.ndim of unsupported kind")
     s.pyconst = int(s.t)
@@ -1231,6 +1376,12 @@ def _size(tr, node, args, kwargs):
     if isinstance(v, SV):
         s = Sc(str(len(v.items)))
         s.pyconst = len(v.items)
+        return s
+    if isinstance(v, El):
+        # the empty-array early return is not modelled (an empty array maps to an empty array anyway;
+        # exercised by the correspondence check)
+        s = Sc("1")
+        s.pyconst = 1
         return s
     fail(node, "np.size of dynamic list")
 
@@ -1262,7 +1413,38 @@ def _arange(tr, node, args, kwargs):
     return DL(f"(arange {args[0].t} {args[1].t} {args[2].t})")
 
 
+def _dtype_kw(tr, node, kwargs, a):
+    dt = kwargs.pop("dtype", None)
+    if kwargs:
+        fail(node, "unexpected keyword")
+    if dt is None:
+        return a.dt
+    if not isinstance(dt, Dt):
+        fail(node, "dtype= must be a dtype expression")
+    return dt.t
+
+
+def _empty_like(tr, node, args, kwargs):
+    if len(args) != 1 or not isinstance(args[0], El) or args[0].mask is not None:
+        fail(node, "np.empty_like form")
+    return El("uninit", _dtype_kw(tr, node, dict(kwargs), args[0]))
+
+
+def _result_type(tr, node, args, kwargs):
+    if len(args) != 2 or kwargs:
+        fail(node, "np.result_type form")
+    a, b = args
+    ta = a.dt if isinstance(a, El) else a.t if isinstance(a, Dt) else None
+    tb = b.dt if isinstance(b, El) else b.t if isinstance(b, Dt) else None
+    if ta is None or tb is None:
+        fail(node, "np.result_type arguments")
+    return Dt(f"(result_type {ta} {tb})")
+
+
 def _full_like(tr, node, args, kwargs):
+    if len(args) == 2 and isinstance(args[0], El) and isinstance(args[1], Sc) and args[0].mask is None:
+        dt = _dtype_kw(tr, node, dict(kwargs), args[0])
+        return El(f"(cast {dt} {args[1].t})", dt)
     if len(args) != 2 or kwargs:
         fail(node, "np.full_like form")
     a, v = args
@@ -1365,7 +1547,7 @@ BUILTINS = {
     "max": _minmax("Rmax"), "min": _minmax("Rmin"),
     "np.array": _array, "np.zeros": _zeros, "np.ndim": _ndim, "np.size": _size,
     "float": _float, "np.clip": _clip, "np.minimum": _minimum, "np.arange": _arange,
-    "np.full_like": _full_like,
+    "np.full_like": _full_like, "np.empty_like": _empty_like, "np.result_type": _result_type,
     "cumulative_trapezoid": _cumtrapz, "sp.integrate.cumulative_trapezoid": _cumtrapz,
     "integrate.cumulative_trapezoid": _cumtrapz,
     "brentq": _brentq, "quad": _quad,
